@@ -96,3 +96,36 @@ def buffered(ctx, rule, skip_files=()):
     bodies = [b for b in ctx.lib.bodies.values() if not is_test(b) and not b.file.endswith(tuple(skip_files))]
     n = buffered_drop_discipline(ctx, rule, bodies, armed=False)
     ctx.stats[rule + ':sweep-buffered-drops-outside-anchor'] = n
+
+
+# unwrap()/expect() whose operand is computed from data that comes from outside the program (a path or line that was read, a value
+# that was parsed, a system call): the abort of the whole run is what C15 ("affects only itself") forbids.  Lock poisoning, thread
+# joins, channels, literal regexes and iterator arithmetic are program-internal and not listed.
+EXTERNAL_SRC = (r'CString::new$|::from_utf8$|::into_string$|::to_str$|::parse$|FromStr>::from_str$|Captures.*::get$|::captures$|::file_name$|::parent$|'
+                r'std::env::|std::fs::|::metadata$|::read_u128$|::strip_prefix$|::canonicalize$|::read_link$|BufRead')
+INTERNAL_SRC = r'Mutex.*::lock$|Condvar::|JoinHandle|mpsc::|crossbeam|ThreadPoolBuilder|Option::<T>::take$|Cell::<T>::take$|PriorityQueue'
+
+
+def panics(ctx, rule):
+    n = 0
+    hits = 0
+    for b in ctx.lib.bodies.values():
+        if is_test(b) or '/.cargo/' in b.file:
+            continue
+        for c in b.calls(r'::(unwrap|expect)$'):
+            if c.exp and not c.f.get('local'):
+                continue
+            if not c.args:
+                continue
+            n += 1
+            sl = backslice(b, [c.args[0]])
+            src = [k for k in sl.calls if k.bb != c.bb]
+            ext = [k for k in src if k.matches(EXTERNAL_SRC)]
+            if not src and b.kind == 'closure':
+                ext = ['(closure parameter)']
+            if ext and not any(k.matches(INTERNAL_SRC) for k in src):
+                hits += 1
+                what = ext[0] if isinstance(ext[0], str) else ext[0].path.rsplit('::', 2)[-2] + '::' + ext[0].path.rsplit('::', 1)[-1]
+                ctx.note(rule, c.where(), 'sweep: %s in %s aborts the run when %s fails' % (c.path.rsplit('::', 1)[-1], b.path, what))
+    ctx.stats[rule + ':sweep-unwrap-sites'] = n
+    ctx.stats[rule + ':sweep-unwrap-on-external-data'] = hits
